@@ -266,6 +266,7 @@ impl Check for C13 {
                 (vec![Op::PushClipRect(2, 1, w, h), Op::PushLayer(1.0, BlendMode::SrcOver), Op::PushClip(cover.clone())], vec![Op::PopClip, Op::PopLayer, Op::PopClip]),
                 (vec![Op::PushClipRect(3, 2, w - 1, h), Op::PushLayer(1.0, BlendMode::SrcOver), Op::PopClip, Op::PushClip(cover.clone())], vec![Op::PopClip, Op::PopLayer]),
                 (vec![Op::PushClip(cover.clone())], vec![Op::PopClip]),
+                (vec![Op::PushClipRect(3, 2, w, h), Op::PushClip(cover.clone()), Op::PushLayer(1.0, BlendMode::SrcOver)], vec![Op::PopLayer, Op::PopClip, Op::PopClip]),
                 // the clip that placed the layer is popped again: an offset layer with an empty clip stack
                 (vec![Op::PushClipRect(3, 2, w - 1, h), Op::PushLayer(1.0, BlendMode::SrcOver), Op::PopClip], vec![Op::PopLayer]),
                 (vec![Op::PushClipRect(1, 1, w, h), Op::PushLayer(1.0, BlendMode::SrcOver), Op::PushClipRect(2, 2, w, h), Op::PushLayer(1.0, BlendMode::SrcOver), Op::PopClip, Op::PopClip], vec![Op::PopLayer, Op::PopLayer]),
@@ -284,6 +285,29 @@ impl Check for C13 {
                                 // the covering path, and the calls that may take the shortcut for
                                 // pixel-aligned rectangles (whole surface, a part, draw_image_at)
                                 let o = Opts { mode: BlendMode::SrcOver, alpha, aa: true };
+                                // (opaque texels drawn with Src / Xor into the transparent layer give the same
+                                // picture through the blend-mode routes)
+                                let opaque: Vec<u32> = data.iter().map(|p| p | 0xff000000).collect();
+                                let osrc = SrcSpec::Image { w: iw, h: ih, data: opaque, repeat, bilinear, xf: t };
+                                if alpha == 1.0 {
+                                    for mode in [BlendMode::Src, BlendMode::Xor] {
+                                        let mut ops = pre.clone();
+                                        ops.push(Op::Fill(PathSpec::rect(-60., -60., 120., 120.), osrc.clone(), Opts { mode, alpha: 1.0, aa: true }));
+                                        ops.extend(suf.iter().cloned());
+                                        let scene = Scene { w, h, dst: Dst::Zero, ops };
+                                        l.states += 1;
+                                        l.transitions += scene.ops.len() as u64;
+                                        l.traces += 1;
+                                        l.evals += 1;
+                                        match eval(&scene) {
+                                            Ok((hsh, n, _)) => {
+                                                l.outcome(hsh);
+                                                l.count("pixels_checked", n);
+                                            }
+                                            Err(v) => run.report(50_000 + s, v),
+                                        }
+                                    }
+                                }
                                 let mut draws = vec![Op::Fill(PathSpec::rect(-60., -60., 120., 120.), src.clone(), o), Op::FillRect(0., 0., w as f32, h as f32, src.clone(), o), Op::FillRect(4., 3., 3., 2., src.clone(), o)];
                                 if !repeat && bilinear && s % sxs.len() == 0 {
                                     draws.push(Op::DrawImageAt(4., 3., iw, ih, data.clone(), o));
